@@ -23,6 +23,8 @@ HEADERS = [
     b"\x04" * 300,
 ]
 
+OTHER_HASHES = [("sha1", 2), ("sha384", 9), ("sha512", 10), ("sha224", 11), ("sha3_256", 12), ("sha3_512", 14), ("md5", 1)]
+
 PAYLOADS = [
     lambda r: {"foo": "bar", "n": r.randint(0, 10 ** 6)},
     lambda r: {"a": [1, 2, {"b": None, "c": True}], "d": 1.5, "e": "", "k": r.randint(0, 99)},
@@ -134,8 +136,15 @@ def entry_value(v, k: int, keys: Keys, Pb: bytes, Qb: bytes, r: random.Random, s
         sig = keys.sign(signer, crypto.gpg_digest(data, hdr), ref=use_ref)
     hdr_out = hdr
     if not ok:
-        choice = r.randrange(4) if (fr == "gpg" and shape != "raw") else 0
-        if choice == 0:
+        choice = r.randrange(5) if (fr == "gpg" and shape != "raw") else 0
+        if choice == 4:
+            # a genuine ed25519 signature by the same key over the digest of ANOTHER hash algorithm, with a header that names
+            # that algorithm in its hash-algorithm octet: only SHA-256 digests count
+            algo, octet = r.choice(OTHER_HASHES)
+            hdr_out = r.choice(HEADERS[:3])
+            hdr_out = hdr_out[:3] + bytes([octet]) + hdr_out[4:]
+            sig = keys.sign(signer, crypto.gpg_digest(data, hdr_out, "rfc", algo))
+        elif choice == 0:
             sig = flip_bit(sig, r)
         elif choice == 1:
             hdr_out = flip_bit(hdr, r)
